@@ -54,6 +54,11 @@ class EliminateVariable:
             for c in ops:
                 if c == t:
                     continue
+                if c.is_leaf() and c.data.strip('|') == t.data.strip('|'):
+                    # x and |x| are the same symbol: replacing one spelling
+                    # by the other eliminates nothing (and cycles with
+                    # SimplifyQuotedSymbols)
+                    continue
                 if t in nodes.dfs(c):
                     # Avoid cycles (for example with core.ReplaceByChild)
                     continue
